@@ -82,7 +82,7 @@ Proof.
       assert ((y - 7 / 20) / (13 / 10) <= 1 / 2). { apply Rmult_le_reg_r with (13 / 10); [lra|]. field_simplify; lra. }
       lra. }
   destruct T as [t1 [-> Ht1]].
-  pose proof (COS_bound ((4 * A + 2) * PI * (1 / 2 - t1))) as [C1 C2].
+  match goal with |- context [cos ?a] => pose proof (COS_bound a) as [C1 C2] end.
   assert (Q : 0 <= t1 ^ 2 <= 1 / 4) by nra.
   split.
   - apply div_nonneg; [|lra]. nra.
@@ -156,4 +156,32 @@ Proof.
   intros n a b i. unfold py_nth. apply nth_nonneg. unfold fn_subvector_eval. apply Forall_forall.
   intros t Ht. apply in_map_iff in Ht. destruct Ht as [j [<- _]]. unfold py_nth. apply nth_nonneg.
   unfold py_repeat. apply Forall_forall. intros v Hv. apply repeat_spec in Hv. subst. lra.
+Qed.
+
+(* ------------------------------------------------------------------ the scalar transformation functions raise no Python exception on [0,1] *)
+Lemma b_param_exp_nonneg : forall u, 0 <= u <= 1 ->
+  0 <= 1 / 50 + (50 - 1 / 50) * (49 / 50 / (2499 / 50) - (1 - 2 * u) * Rabs (IZR (py_floor (1 / 2 - u)) + 49 / 50 / (2499 / 50))).
+Proof.
+  intros u Hu.
+  assert (A0 : 0 < 49 / 50 / (2499 / 50) < 1) by (split; [apply Rdiv_lt_0_compat; lra|apply Rmult_lt_reg_r with (2499 / 50); [lra|field_simplify; lra]]).
+  set (A := 49 / 50 / (2499 / 50)) in *.
+  destruct (Rle_lt_dec u (1 / 2)) as [L|G].
+  - rewrite floor_0 by lra. simpl IZR. rewrite Rplus_0_l, Rabs_right by lra. nra.
+  - rewrite floor_m1 by lra. replace (IZR (-1) + A) with (- (1 - A)) by (simpl; lra). rewrite Rabs_Ropp, Rabs_right by lra. nra.
+Qed.
+Lemma wfg_scalar_defined : forall y u, 0 <= y <= 1 -> 0 <= u <= 1 ->
+  fn_s_linear_defined y (7 / 20) /\ (forall A B, 0 <= B -> fn_s_multi_defined y A B (7 / 20)) /\
+  fn_s_decept_defined y (7 / 20) (1 / 1000) (1 / 20) /\ fn_b_param_defined y u (49 / 50 / (2499 / 50)) (1 / 50) 50.
+Proof.
+  intros y u Hy Hu. repeat split.
+  - unfold fn_s_linear_defined. destruct (Rle_lt_dec y (7 / 20)).
+    + rewrite floor_0 by lra. simpl IZR. rewrite Rplus_0_l, Rabs_right by lra. lra.
+    + rewrite floor_m1 by lra. replace (IZR (-1) + 7 / 20) with (- (13 / 20)) by (simpl; lra). rewrite Rabs_Ropp, Rabs_right by lra. lra.
+  - destruct (Rle_lt_dec y (7 / 20)); [rewrite floor_0 by lra|rewrite floor_m1 by lra]; simpl IZR; lra.
+  - lra.
+  - lra.
+  - lra.
+  - lra.
+  - unfold fn_b_param_defined, rpow_ok. pose proof (b_param_exp_nonneg u Hu) as E.
+    destruct Hy as [[P|Z] _]; [now left|right; split; [now symmetry|exact E]].
 Qed.
